@@ -122,6 +122,8 @@ def regen_api():
     CmProps/C17api.lean identify them with the model)"""
     from translate import api, effectsig
     api.generate()
+    from translate import hexsrc
+    hexsrc.generate()           # CmGen/HexSrc.lean: Color.to_hex, which feeds the console preview (CmProps/C17hex.lean)
     effectsig.generate()        # CmGen/EffectSig.lean: every output / file-system call of the core modules (CmProps/C17sig.lean)
 
 
